@@ -294,11 +294,22 @@ func (c *Ctx) AnalyzeLoopsExcept(fn *ssa.Function, except ...*ssa.Function) *ir.
 // AnalyzeKeeping analyses fn with the default inlining except that callees for which keep(callee origin) holds stay
 // opaque call events; key names the predicate for the cache.
 func (c *Ctx) AnalyzeKeeping(fn *ssa.Function, key string, keep func(*ssa.Function) bool) *ir.Analysis {
+	return c.AnalyzeKeepingDepth(fn, key, keep, 0)
+}
+
+// AnalyzeKeepingDepth: AnalyzeKeeping with the inlining bound raised to depth (0 = the default bound).
+func (c *Ctx) AnalyzeKeepingDepth(fn *ssa.Function, key string, keep func(*ssa.Function) bool, depth int) *ir.Analysis {
 	k := ir.FuncName(fn) + "|keeping|" + key
+	if depth > 0 {
+		k += fmt.Sprintf("|%d", depth)
+	}
 	if a, ok := c.cache[k]; ok {
 		return a
 	}
 	o := *c.Options()
+	if depth > 0 {
+		o.MaxInline = depth
+	}
 	base := o.Inline
 	o.Inline = func(f *ssa.Function) bool {
 		g := f
